@@ -99,6 +99,36 @@ pub fn check(tier: &str) -> i32 {
         let _ = std::fs::remove_dir_all(&d);
         f.len()
     });
+    // flush and compaction interleaved at the index hand-over: the compaction round is held inside
+    // (and right after) its index lock while a flush runs; the monitor watches both
+    {
+        let mut races = Vec::new();
+        for segs in [vec![1u8, 1], vec![3u8, 1, 3]] {
+            for gate in ["compact.output_written", "compact.index_locked", "compact.index_swapped"] {
+                races.push(crate::c05::Race { pop: crate::c05::Pop { cfg: SysConfig { fill_factor: 3, event_per_zone: 2, segments_per_merge: 2, ..Default::default() }, segs: segs.clone(), rounds: 1 }, compaction_held: true, park: Some((gate.to_string(), 0, 10000, 0)) });
+            }
+        }
+        let rr = par_map(&races, threads(), |i, r| crate::c05::run_race(&scratch.dir.join(format!("race{i}")), r));
+        for (i, r) in rr.iter().enumerate() {
+            match r {
+                Err(e) => {
+                    eprintln!("MACHINERY: {e}");
+                    return 2;
+                }
+                Ok((_, jr)) => {
+                    if !jr[0].gates.iter().any(|g| g.parked) {
+                        eprintln!("MACHINERY: race trap never hit: {:?}", races[i].park);
+                        return 2;
+                    }
+                    for x in jr {
+                        for v in &x.monitor {
+                            mon.lock().unwrap().push((vec![], format!("flush while the compaction round is held at {:?} (segments {:?}): {v}", races[i].park.as_ref().map(|p| &p.0), races[i].pop.segs)));
+                        }
+                    }
+                }
+            }
+        }
+    }
     let st = stats.lock().unwrap();
     if !st.machinery.is_empty() {
         for m in st.machinery.iter().take(5) {
